@@ -14,7 +14,7 @@ META = dict(
     design_ref="4 (extensions)",
     rule="history of buildProtocol/makeConnection/dataReceived/write/writeSequence/loseConnection/registerProducer/"
          "unregisterProducer/connectionLost/clock.advance calls (one event per call, one per delayed call run by the clock); "
-         "all histories of <= 5 steps over a relative alphabet plus seeded random ones; distinct by event sequence",
+         "every word of 4-6 (thorough 5-7) symbols over 7 relative alphabets plus seeded random histories; distinct by event sequence",
 )
 NONE = -1
 UNIT = 16           # bytes per spec unit
@@ -371,12 +371,13 @@ def run(ctx):
         ctx.log("exhaustive: %s alphabet %d, words of %d -> %d distinct histories" % (cfg, len(alphabet), ctx.pick(lq, lt), len(got)))
         traces.extend(got)
     nshort = len(traces)
-    for _ in range(ctx.pick(700, 15000)):
+    for _ in range(ctx.pick(1200, 15000)):
         traces.append(run_history(random_cfg(ctx.rng), random_ops(ctx.rng, ctx.rng.randint(6, 40))))
     ctx.note_traces(traces)
     ctx.extra["exhaustive_short_histories"] = nshort
     ctx.extra["events"] = sum(len(t["ev"]) for t in traces)
-    ctx.extra["executions_with_swallowed_connectionLost"] = sum(1 for t in traces if any(e["exc"] for e in t["ev"]))
+    ctx.extra["executions_with_swallowed_connectionLost"] = sum(1 for t in traces if any(e["exc"] and e["e"] == "lost" for e in t["ev"]))
+    ctx.extra["executions_with_write_throttle_crash"] = sum(1 for t in traces if any(e["exc"] and e["e"] == "fire" for e in t["ev"]))
     ctx.extra["executions_with_throttling"] = sum(1 for t in traces if any(o[0] in ("tpause", "ppause") for e in t["ev"] for o in e["obs"]))
     rej = ctx.validate("PoliciesTrace", traces, shard_size=ctx.pick(1000, 2500))
     report(ctx, traces, rej)
